@@ -417,8 +417,23 @@ func Batch(o Opts) int {
 		cmd.Env = os.Environ()
 		outb, _ := cmd.CombinedOutput()
 		if !strings.Contains(string(outb), "oracle="+viol.V.Oracle+" ") {
-			fmt.Fprintf(os.Stderr, "runner: replay in a fresh process did not reproduce the violation class (harness determinism bug):\n%s\n", outb)
-			return 2
+			// the minimised scenario may have been accepted under state left over
+			// by earlier candidates in this process: fall back to the scenario as found
+			rf.Scenario, rf.Minimised, rf.Message = viol.Scenario, false, viol.V.Msg
+			b, _ = json.MarshalIndent(&rf, "", " ")
+			if err := os.WriteFile(replayPath, b, 0o644); err != nil {
+				fmt.Fprintln(os.Stderr, "runner: write replay:", err)
+				return 2
+			}
+			cmd = exec.Command(o.Self, "-replay", replayPath, "-known", o.Known)
+			cmd.Env = os.Environ()
+			outb, _ = cmd.CombinedOutput()
+			if !strings.Contains(string(outb), "oracle="+viol.V.Oracle+" ") {
+				fmt.Fprintf(os.Stderr, "runner: replay in a fresh process did not reproduce the violation class, minimised or not (the run depends on state outside the scenario: determinism trouble):\n%s\n", outb)
+				return 2
+			}
+			msg = viol.V.Msg
+			fmt.Printf("qsim: the minimised scenario did not reproduce in a fresh process; the replay file holds the scenario as found\n")
 		}
 		fmt.Printf("qsim: replay confirmed in a fresh process\n  %s\n", msg)
 		code = 1
